@@ -157,6 +157,69 @@ def run(prog, R):
              f"{k_} used to be consumed under a marker that was {was} and is now consumed under {now}: the token became a child of a different node (e.g. `else` inside the nested if), so the typed accessors of both nodes see the wrong constituents")
     R.ob("C05.4-token-parent", "all-pairs", not moved, "", f"{ntp} (grammar function, token) pairs compared with the frozen table")
     R.floor("token-parent pairs", ntp, 150)
+    # ---- C05.3 PRESENT: constituents that the typed accessors (and the analyser) expect on every diagnostic-free parse:
+    # the grammar function of the statement completes a node of that kind on every path (or reports a syntax error)
+    import shapes
+    seen_facts = set()
+    for e in json.load(open(os.path.join(VERIF, "spec", "reviewed_sites.json"))):
+        for f_, ks_, or_err in e.get("completes", []):
+            fk = (f_, tuple(ks_), or_err)
+            if fk in seen_facts:
+                continue
+            seen_facts.add(fk)
+            okp = shapes.always_completes(prog, f_, ks_, or_error=or_err) is True
+            R.ob("C05.3-PRESENT", f"{short(f_)}:{'|'.join(ks_[:3])}", okp, prog.body(f_).at if prog.body(f_) else "",
+                 f"every path of {f_.split('::')[-1]} completes a {'/'.join(ks_[:3])} node" + (" or reports a syntax error" if or_err else "") if okp else
+                 f"{f_.split('::')[-1]} can return without completing a {'/'.join(ks_[:3])} node: the typed accessor for that constituent returns None on an accepted program")
+    R.floor("must-complete facts", len(seen_facts), 12)
+    # ---- C05.4 a non-list expression node is closed before control can loop: between Parser::start and the completion
+    # of PREFIX_EXPR / PAREN_EXPR / CAST_EXPRESSION / RETURN_EXPR (one operator or keyword, one operand) there is no loop
+    NONLIST = {"PREFIX_EXPR", "PAREN_EXPR", "CAST_EXPRESSION", "RETURN_EXPR", "MEASURE_EXPRESSION"}
+    nst = 0
+    for b in prog.by_crate["oq3_parser"]:
+        if not b.npath.startswith("oq3_parser::grammar::"):
+            continue
+        comp_blocks = {}
+        for bi, t in b.calls():
+            if (b.callee_of(t) or "").endswith("Marker::complete"):
+                ks_ = {og[2] for og in origins(prog, b, t["args"][2], max_depth=3) if og[0] == "agg"}
+                comp_blocks[bi] = ks_
+        if not any(ks_ and ks_ <= NONLIST for ks_ in comp_blocks.values()):
+            continue
+        starts = [bi for bi, t in b.calls() if (b.callee_of(t) or "").endswith("Parser::start")]
+        closes = {bi for bi, t in b.calls() if (b.callee_of(t) or "").endswith(("Marker::complete", "Marker::abandon"))}
+        succ = b.succ()
+        for o, sb in enumerate(starts):
+            region, stack = set(), [sb]
+            reach_kinds = set()
+            while stack:
+                x = stack.pop()
+                if x in region or b.blocks[x].cleanup:
+                    continue
+                region.add(x)
+                if x in closes and x != sb:
+                    reach_kinds |= comp_blocks.get(x, set())
+                    continue
+                stack.extend(succ[x])
+            if not (reach_kinds and reach_kinds <= NONLIST):
+                continue
+            nst += 1
+            inner = region - closes
+
+            def reach_(x0):
+                seen, st = set(), [y for y in succ[x0] if y in inner]
+                while st:
+                    y = st.pop()
+                    if y in seen:
+                        continue
+                    seen.add(y)
+                    st.extend(z for z in succ[y] if z in inner)
+                return seen
+            loopb = {x for x in inner if x in reach_(x)}
+            R.ob("C05.4-one-node-per-application", f"{short(b.npath)}:start{o}:{'|'.join(sorted(reach_kinds))}", not loopb, b.blocks[sb].term["at"],
+                 "no loop between the start of the node and its completion" if not loopb else
+                 f"a loop lies between Parser::start and the completion of {sorted(reach_kinds)}: several operators / operands are collected into one node (`- -a` becomes one PREFIX_EXPR with two operator tokens) instead of nesting")
+    R.floor("non-list expression nodes started with Parser::start", nst, 3)
     import roles
     roles.check(prog, R, "C05.3-ROLE-positional")
     # ---- C05.4 one node per application: a node opened around an already parsed operand (`lhs.precede(p)`: binary,
